@@ -14,6 +14,30 @@ CHECKS = {
          "Every range/gcd/parity/compositeness guard and every verification equation the property names is shown to dominate each accepting return of its verifier with a reject set at least as large as required, on all paths of the current source; Paillier domain guards dominate every non-error return; security constants are read from the type checker. A missing, weakened, misplaced or wrong-operand guard is reported with its verifier and guard name.",
          "§4.11",
          "Not decided: soundness itself (that the inventory suffices to reject every false statement) and collision resistance of the hash. The inventory is the protocol specification's (GG18 / CGGMP figures)."),
+ "C01": ("dominating-guard + must-pass-through gate + value/object identity (big.Int object state) on go/ssa; post-condition of the padding helper by edge facts",
+         "The digest guard m >= N dominates every first-round send and judges the constructor's own argument; the one result emission is dominated by the true edge of crypto/ecdsa.Verify on exactly the emitted (group key, M, R, S) with no in-place change of s between storing and verifying; s is replaced by N-s exactly on s > N>>1 and only that branch toggles the recovery bit; R and S pass a padding helper whose every return is at least the requested width, Signature = R||S, M is m.Bytes() or FillBytes of the requested length.",
+         "§4.1",
+         "Not decided: that all signers output the same signature and that the combined s is valid (Lagrange/MtA/phase-5 algebra), schedules. The gate reduces 'verifies with a standard verifier' to the stdlib verifier having accepted exactly the emitted values."),
+ "C02": ("must-pass-through gate + value identity + static types (64-byte layout) + normal-form agreement of the message encoding",
+         "The result emission is dominated by the true edge of edwards.Verify on the emitted data.M with r = the temp.r whose encoding is the first half and s decoded from the very 32-byte array emitted as the second half, under key.EDDSAPub; both halves are full slices of *[32]byte (type fact); the message bytes hashed into the challenge and the bytes echoed in M have one normal form over (m, fullBytesLen).",
+         "§4.2",
+         "Not decided: RFC 8032 correctness of the encoders and the challenge, equality across signers."),
+ "C17": ("who-may-write (field stores of ECPoint), must-pass-through on-curve gates, provenance of unchecked-constructor arguments, def-use must-pass-through of EightInvEight",
+         "ECPoint fields are unexported and written only by the two constructors, the two decoders and SetCurve; NewECPoint returns a point only on the true edge of isOnCurve on the very values stored; GobDecode/UnmarshalJSON return nil only after IsOnCurve() on the stored coordinates with a registry curve; the unchecked constructor is fed only generator/constant/curve-arithmetic coordinates and UnFlattenECPoints never has its check disabled; in the EdDSA protocols every point decoded from a peer passes through EightInvEight before any other use, EightInvEight is (8P)*8^-1 with 8^-1 modulo the edwards25519 order, and ScalarMult does not alter its scalar.",
+         "§4.17",
+         "Not decided: correctness of the curve arithmetic, round-trip equality of encodings, that EightInvEight fixes the prime-order subgroup."),
+ "C18": ("dominating refusal guards, loop-carried fold recognition, layout by resolved callees/constants, right-alignment post-condition of the padding helper, effect analysis",
+         "DeriveChildKey returns a key only behind index < 2^31, depth != max, parent on curve, 0 < IL < N (of the curve passed in) and a successful child addition, with child = parent + IL*G; the hierarchy walk chains parent -> child, aborts on the first error and returns offset_{k+1} = (IL_k + offset_k) mod m with m the curve order at the signing call site; HMAC-SHA512 over compressed(parent)||BE32(index) keyed by the chain code, IL/chain-code split, hash160 fingerprint, compressed key = format || X right-aligned in 32 bytes; signing applies the offset to a fresh integer (no in-place operation on caller-owned key data).",
+         "§4.18",
+         "Not decided: equality with BIP32 beyond the layout facts; validity of signatures under the child key."),
+ "C19": ("must-pass-through emission gates with same-variable load identity, defer-order and fork-join rules, value identity of pre-parameter relations on canonical terms, inductive loop-exit guards of samplers",
+         "A (p,q) pair is emitted only after q.ProbablyPrime, Pocklington(p), bitlen(q) = requested-1 and Validate (q prime, 2q+1 = p, p prime) accepted the very pair sent; the generator's defers execute cancel -> Wait -> close, workers call Done once, poll ctx each candidate, send at most one error into a channel with room for every worker; both pre-parameter producers send exactly once on buffered channels; NTilde = P*Q of two distinct pairs, H1 = f^2, H2 = H1^alpha, Beta = alpha^-1 mod pq, Paillier key from an independent 2048-bit call; samplers return only values behind their loop-exit guards.",
+         "§4.19",
+         "Not decided: primality, exact bit lengths, promptness, goroutine-leak freedom when the prime channel fills, that h1,h2 generate each other."),
+ "C20": ("interprocedural ownership/alias effect analysis over *big.Int objects, single-store provenance of nonces, JSON-closure type walk, field-set agreement of the subset copy",
+         "No signing-path instruction overwrites, element-stores into or relabels an object owned by the caller's key data (one declared exception); the ECDSA k/gamma and EdDSA r_i nonces are stored once per session directly from GetRandomPositiveInt(round.Rand(), N); both save-data types are closed under encoding/json (exported fields or symmetric custom codecs with identical auxiliary types); the subset builder copies every per-party slice at one (j, savedIdx) pair and every other field group whole, into slices of its own.",
+         "§4.20",
+         "Not decided: equality of results after a JSON reload, nonce distinctness as a probability statement."),
  "C07": ("who-may-write / control-dependence / must-pass-through rules over the extracted protocol model and the round engine's CFG",
          "Five necessary conditions of order-independence decided on every path: StoreMessage stores every content type under conditions that depend only on the message and its validation; message slots are written only by StoreMessage[sender] and Start[self] and never cleared; after advance() BaseUpdate starts the new round and re-runs itself with the same message after unlocking (or returns the Start error); every slot a round's Start reads was awaited by an earlier round or self-stored; one result emission, in the final round, with the started/NextRound lifecycle intact.",
          "§4.7",
